@@ -4,6 +4,7 @@ import ast, inspect, sys, os, textwrap, time, importlib, types, contextlib, subp
 import z3
 import mpmath as mp
 from . import sym as S
+from . import state as ST
 from .sym import Sym, SymB, UF, PI, lift, EngineError
 
 REPO = os.environ.get('VERIF_REPO', '/repo')
@@ -129,8 +130,19 @@ def load_repo(modules, shim=True, stubs=()):
             except Exception:
                 sys.modules[st] = types.ModuleType(st)
     out = {}
+    import functools as _ft
+    _orig = (_ft.lru_cache, getattr(_ft, 'cache', None))
     for m in modules:
-        mod = importlib.import_module(m)
+        if m not in sys.modules:
+            _ft.lru_cache = ST.visible_lru_cache(m)            # memo tables become visible state containers (vp/state.py)
+            if _orig[1] is not None:
+                _ft.cache = _ft.lru_cache(maxsize=None)
+        try:
+            mod = importlib.import_module(m)
+        finally:
+            _ft.lru_cache = _orig[0]
+            if _orig[1] is not None:
+                _ft.cache = _orig[1]
         f = os.path.realpath(mod.__file__)
         if not f.startswith(os.path.realpath(REPO) + os.sep):
             raise EngineError('module %s loaded from %s, not from %s' % (m, f, REPO))
@@ -146,6 +158,7 @@ def load_repo(modules, shim=True, stubs=()):
                     lambda cls, v=0.0, *a: _b.float.__new__(cls, _b.float('nan') if isinstance(v, Sym) else v))
         out[m] = mod
         _MODS[m] = mod
+        ST.scan(mod)
     return out
 
 
@@ -153,10 +166,21 @@ def load_file(path, name, shim=True):
     S.install_math()
     spec = importlib.util.spec_from_file_location(name, path)
     mod = importlib.util.module_from_spec(spec)
-    spec.loader.exec_module(mod)
+    import functools as _ft
+    _orig = (_ft.lru_cache, getattr(_ft, 'cache', None))
+    _ft.lru_cache = ST.visible_lru_cache(name)
+    if _orig[1] is not None:
+        _ft.cache = _ft.lru_cache(maxsize=None)
+    try:
+        spec.loader.exec_module(mod)
+    finally:
+        _ft.lru_cache = _orig[0]
+        if _orig[1] is not None:
+            _ft.cache = _orig[1]
     if shim:
         mod.__dict__['float'] = S.SFloat
         mod.__dict__['int'] = S.SInt
+    ST.scan(mod)
     return mod
 
 
@@ -165,40 +189,95 @@ PROGRAM_EXC = (ValueError, TypeError, ZeroDivisionError, UnboundLocalError, Attr
                NameError, AssertionError, OverflowError, RuntimeError)
 
 
-def explore(thunk, pre=(), prune_ms=250, max_paths=4000):
-    """run thunk() once per decision schedule; returns list of paths {pc, kind, val, decisions}"""
-    S.ctx.work = [[]]
-    out = []
+def explore(thunk, pre=(), prune_ms=250, max_paths=4000, history=False, label=None):
+    """run thunk() once per decision schedule; returns list of paths {pc, kind, val, decisions}.
+    With written module state present (vp/state.py) a second phase runs, per schedule, the thunk as an EARLIER call on the
+    import-time state, renames that call's symbols to history copies, and then runs the thunk again.  Every such history
+    path must be INDEPENDENT of the earlier call: its result free of history symbols, identical to the result of a plain
+    path, and its path condition implying that plain path's.  The outcome is logged in ST.FINDINGS (Prop.finish turns it
+    into the obligation state_independence[...]); history=True additionally returns the history paths (flag `history`)
+    so that a property's own obligations judge them and the model of a failed one yields a two-call failing history."""
+    out, hout = [], []
     sv = z3.Solver()
     sv.set('timeout', prune_ms)
     S.ctx.active = True
+    hist = bool(ST.STATE)
+    base_fp = None
     try:
-        while S.ctx.work:
-            S.ctx.prefix = S.ctx.work.pop()
-            S.ctx.idx = 0
-            S.ctx.pc = []
-            try:
-                r = ('ret', thunk())
-            except PathEnd as e:
-                r = ('loopback', e.args[0])
-            except EngineError:
-                raise
-            except PROGRAM_EXC as e:
-                r = ('raise', (type(e).__name__, str(e)[:120]))
-            pc = list(S.ctx.pc)
-            dead = False
-            if pc:
-                sv.push()
-                sv.add(*pre)
-                sv.add(*pc)
-                dead = zcheck(sv, prune_ms) == z3.unsat
-                sv.pop()
-            if not dead:
-                out.append(dict(pc=pc, kind=r[0], val=r[1], decisions=list(S.ctx.prefix)))
-            if len(out) > max_paths:
-                raise EngineError('path explosion')
+        for phase in ((0, 1) if hist else (0,)):
+            S.ctx.work = [[]]
+            while S.ctx.work:
+                S.ctx.prefix = S.ctx.work.pop()
+                S.ctx.idx = 0
+                S.ctx.pc = []
+                if hist:
+                    ST.restore()
+                    if base_fp is None:
+                        base_fp = ST.state_fingerprint()
+                if phase == 1:
+                    try:
+                        thunk()
+                    except PathEnd:
+                        continue                      # an earlier call that stops at a cut loop head is not a complete call
+                    except EngineError:
+                        raise
+                    except PROGRAM_EXC:
+                        pass
+                    if ST.state_fingerprint() == base_fp:
+                        continue                      # the earlier call left no trace: phase 0 covers it
+                    ST.prime_state(S.ctx.pc, pre)
+                try:
+                    r = ('ret', thunk())
+                except PathEnd as e:
+                    r = ('loopback', e.args[0])
+                except EngineError:
+                    raise
+                except PROGRAM_EXC as e:
+                    r = ('raise', (type(e).__name__, str(e)[:120]))
+                pc = list(S.ctx.pc)
+                if phase == 1:
+                    r = (r[0], ST.resolve_equalities(pc, r[1]))
+                dead = False
+                if pc:
+                    sv.push()
+                    sv.add(*pre)
+                    sv.add(*pc)
+                    dead = zcheck(sv, prune_ms) == z3.unsat
+                    sv.pop()
+                if not dead:
+                    (hout if phase else out).append(dict(pc=pc, kind=r[0], val=r[1], decisions=list(S.ctx.prefix), history=bool(phase)))
+                if len(out) + len(hout) > max_paths:
+                    raise EngineError('path explosion')
     finally:
         S.ctx.active = False
+        if hist:
+            ST.restore()
+    if hist:
+        dep, unk = [], []
+        fps = [(p['kind'], ST.fingerprint(p['val'])) for p in out]
+        for h in hout:
+            verdict = 'dependent'
+            if not ST.has_history(ST.terms_of(h['val'])):
+                key = (h['kind'], ST.fingerprint(h['val']))
+                same = [p for p, k in zip(out, fps) if k == key]
+                if same:
+                    s2 = z3.Solver()
+                    s2.add(*pre)
+                    s2.add(*h['pc'])
+                    s2.add(z3.Not(z3.Or(*[z3.And(*p['pc']) if p['pc'] else z3.BoolVal(True) for p in same])))
+                    rr = zcheck(s2, 5000)
+                    verdict = 'independent' if rr == z3.unsat else ('dependent' if rr == z3.sat else 'unknown')
+            h['independent'] = verdict == 'independent'
+            if verdict == 'dependent':
+                dep.append(h)
+            elif verdict == 'unknown':
+                unk.append(h)
+        co = getattr(thunk, '__code__', None)
+        ST.FINDINGS.append(dict(label=label or ('%s:%d' % (os.path.basename(co.co_filename), co.co_firstlineno) if co else '?'),
+                                plain=len(out), history=len(hout), dependent=len(dep), unknown=len(unk),
+                                example=(str([str(c)[:80] for c in dep[0]['pc']][:4]) if dep else None)))
+        if history:
+            return out + hout
     return out
 
 
@@ -397,6 +476,7 @@ class Summary:
         self.flatten = flatten           # bound-arguments dict -> list of z3 terms (ALL actual parameters)
         self.calls = []
         self.fns = None
+        ST.RECORDERS.add(self)
 
     def __call__(self, *a, **kw):
         ba = self.sig.bind(*a, **kw)
@@ -1221,7 +1301,11 @@ def crosscheck(paths, envs, native, flatten=lambda v: [x for x in v], uf_env=Non
         if uf_env:
             e.update(uf_env)
         sel = []
+        if ST.STATE:
+            ST.restore()                     # single-call witnesses: import-time state, history paths are not selectable
         for i, p in enumerate(paths):
+            if p.get('history'):
+                continue
             try:
                 if all(evaluate(c, e) for c in p['pc']):
                     sel.append(i)
